@@ -262,6 +262,42 @@ def validate_trace(spec_dir, module, trace_path, cfg=None, timeout=900, env=None
     raise ToolError("trace validation %s on %s failed unexpectedly: %s" % (module, trace_path, (r.error_text or r.out[-2000:])[:2500]))
 
 
+def validate_trace_cases(spec_dir, module, trace_path, cfg=None, reset_events=("reset",), max_rejections=8,
+                         timeout=900, env=None, heap="4g"):
+    """Validate a multi-case trace. When a case is rejected, record the rejection, cut that
+    case out (from its reset event to the next reset event) and validate the rest, so one
+    rejection does not hide the remainder of the trace.  Returns dict(rejections=[{line,
+    record, case_events}], results=[TlcResult...], cases_cut=int, truncated=bool)."""
+    rejections, results = [], []
+    cur = trace_path
+    truncated = False
+    for rnd in range(max_rejections + 1):
+        res = validate_trace(spec_dir, module, cur, cfg=cfg, timeout=timeout, env=env, heap=heap)
+        results.append(res["result"])
+        if res["accepted"]:
+            break
+        with open(cur) as f:
+            lines = f.readlines()
+        L = res["line"]
+        start = L - 1
+        while start > 0 and json.loads(lines[start]).get("ev") not in reset_events:
+            start -= 1
+        end = L
+        while end < len(lines) and json.loads(lines[end]).get("ev") not in reset_events:
+            end += 1
+        case_events = [json.loads(x) for x in lines[start:min(end, L + 3)]]
+        rejections.append({"line": L, "record": res["record"], "case_events": case_events[-80:],
+                           "line_in_case": L - start})
+        rest = lines[:start] + lines[end:]
+        if not rest or rnd == max_rejections:
+            truncated = bool(rest) and rnd == max_rejections
+            break
+        cur = trace_path + ".cut%d" % (rnd + 1)
+        with open(cur, "w") as f:
+            f.writelines(rest)
+    return {"rejections": rejections, "results": results, "truncated": truncated}
+
+
 def count_lines(path):
     n = 0
     with open(path) as f:
